@@ -127,6 +127,45 @@ pub fn run(ctx: &Ctx) -> Rep {
     for i in 0..52u8 {
         check_card_points(&mut st.rep, i);
     }
+    // ---- every length-2 call history: the score of `cur` right after scoring `prev` -------------------
+    // (a score must not depend on what was scored before; 2,652 x 2,652 sequences, single-threaded so
+    // that nothing else calls into the crate between the two calls of a sequence)
+    {
+        let mut pairs: Vec<(u8, u8)> = Vec::new();
+        for a in (0..52u8).step_by(step) {
+            for b in 0..52u8 {
+                if a != b {
+                    pairs.push((a, b));
+                }
+            }
+        }
+        let hands: Vec<Two> = pairs.iter().map(|&(a, b)| Two::new(model::word(a), model::word(b))).collect();
+        let want: Vec<i32> = pairs.iter().map(|&(a, b)| model::chen(a, b)).collect();
+        let mut seqs = 0u64;
+        let r = drive::guard(|| {
+            for (pi, prev) in hands.iter().enumerate() {
+                for (ci, cur) in hands.iter().enumerate() {
+                    let _ = prev.chen_formula();
+                    let got = cur.chen_formula() as i32;
+                    seqs += 1;
+                    if got != want[ci] {
+                        st.rep.violation(
+                            "the score does not depend on what was scored before",
+                            "Two::chen_formula after Two::chen_formula",
+                            Input::Idx(vec![pairs[pi].0, pairs[pi].1, pairs[ci].0, pairs[ci].1]),
+                            format!("{} for {} {}", want[ci], model::card_name(pairs[ci].0), model::card_name(pairs[ci].1)),
+                            format!("{} right after scoring {} {}", got, model::card_name(pairs[pi].0), model::card_name(pairs[pi].1)),
+                        );
+                    }
+                }
+            }
+        });
+        if let Err(msg) = r {
+            st.rep.violation("panic", "Two::chen_formula", Input::None, "normal return".into(), msg);
+        }
+        st.rep.evaluations += seqs * 2;
+        st.rep.add("length_2_call_histories(prev, cur)", seqs);
+    }
     for (k, v) in &st.x.arms {
         st.rep.add(&format!("arm[{}]", k), *v);
     }
@@ -142,7 +181,7 @@ pub fn run(ctx: &Ctx) -> Rep {
         rep.floor("formula arms exercised", arms, 18);
         rep.exhaustive = Some(true);
     }
-    rep.rule = "all 52 x 51 ordered pairs of distinct cards (distinct = pairs) through chen_formula and the six helpers, plus slot swap and suit shift; all 52 cards for the per-card points; \
+    rep.rule = "all 52 x 51 ordered pairs of distinct cards (distinct = pairs) through chen_formula and the six helpers, plus slot swap and suit shift; all 52 cards for the per-card points; every ordered pair of hands as a two-call history (7,033,104 sequences); \
                 oracle in integer half-points"
         .to_string();
     rep
@@ -154,6 +193,14 @@ pub fn replay(_ctx: &Ctx, inp: &Input, _clause: &str) -> Rep {
     let r = drive::guard(|| match inp {
         Input::Idx(v) if v.len() == 2 && v[0] < 52 && v[1] < 52 && v[0] != v[1] => check_pair(&mut st, v[0], v[1]),
         Input::Idx(v) if v.len() == 1 && v[0] < 52 => check_card_points(&mut st.rep, v[0]),
+        Input::Idx(v) if v.len() == 4 && v.iter().all(|&i| i < 52) && v[0] != v[1] && v[2] != v[3] => {
+            let _ = Two::new(model::word(v[0]), model::word(v[1])).chen_formula();
+            let got = Two::new(model::word(v[2]), model::word(v[3])).chen_formula() as i32;
+            let want = model::chen(v[2], v[3]);
+            if got != want {
+                st.rep.violation("the score does not depend on what was scored before", "Two::chen_formula after Two::chen_formula", inp.clone(), format!("{}", want), format!("{}", got));
+            }
+        }
         _ => bad_replay(&mut st.rep, "C17 wants idx: two distinct cards, or one card"),
     });
     if let Err(msg) = r {
